@@ -1,6 +1,6 @@
 //@ unit fmt_template
 //@ serves C01 C04
-//@ must_verify SimpleTemplate::parse lemma_tpl_examples
+//@ must_verify SimpleTemplate::parse lemma_tpl_examples ExpressionTemplate::parse lemma_pvs_push
 //@ include prelude/head.rs
 use std::rc::Rc;
 
@@ -18,12 +18,15 @@ verus! {
 // itself dropped; every other character stands for itself. The parts are the literal pieces between
 // placeholders; placeholders are numbered 0, 1, 2 .. in order of appearance. A template without any
 // placeholder is one literal piece (also when it is empty); a trailing empty literal piece is omitted.
-pub enum PV { S(Seq<char>), P(int), E }
+// X(text): the expression parsed from the text that follows an `@` (see consume_expr below)
+pub enum PV { S(Seq<char>), P(int), X(Seq<char>) }
+// the template text an embedded expression was read from (ghost link between consume_expr's result and its input)
+pub uninterp spec fn expr_src(e: Expression) -> Seq<char>;
 pub open spec fn pv(p: TemplatePart) -> PV {
     match p {
         TemplatePart::Str(v) => PV::S(v@),
         TemplatePart::PlaceHolder(n) => PV::P(n as int),
-        TemplatePart::Expression(_) => PV::E,
+        TemplatePart::Expression(e) => PV::X(expr_src(e)),
     }
 }
 pub struct TS { pub parts: Seq<PV>, pub buf: Seq<char>, pub esc: bool, pub n: int }
@@ -130,6 +133,114 @@ pub proof fn axiom_str_len_bound(s: &str)
 //@   mutant tpl_at_escaped_drop "c == '@' && !should_escape" => "c == '@'" expect parse
 //@   mutant tpl_trailing_piece "if !buf.is_empty() || result.is_empty() {" => "if !buf.is_empty() {" expect parse
 //@   mutant tpl_drop_char "buf.push(c);" => "" expect parse
+//@ end
+
+// ---------- `@{expr}` templates ----------
+// Reference reading: as above, but an unescaped `@` hands the text that follows it to the expression reader, which takes
+// the `{ ... }` group (some number of characters, ce_len) and either yields the expression or refuses it (then the whole
+// template is refused); reading continues right after the group. Literal pieces and escapes are as in `@` templates.
+pub uninterp spec fn ce_len(rest: Seq<char>) -> int;
+pub uninterp spec fn ce_ok(rest: Seq<char>) -> bool;
+pub open spec fn ce_take(rest: Seq<char>) -> int {
+    if ce_len(rest) < 0 { 0 } else if ce_len(rest) > rest.len() { rest.len() as int } else { ce_len(rest) }
+}
+pub open spec fn pvs(s: Seq<TemplatePart>) -> Seq<PV> { s.map_values(|p: TemplatePart| pv(p)) }
+pub open spec fn et_finish(parts: Seq<PV>, buf: Seq<char>) -> Seq<PV> {
+    if buf.len() > 0 || parts.len() == 0 { parts.push(PV::S(buf)) } else { parts }
+}
+// what reading `rest` yields when `parts` were produced so far, `buf` is the literal piece under construction and `esc`
+// tells whether the previous character was an unescaped backslash; None = the template is refused
+pub open spec fn et_parts(rest: Seq<char>, buf: Seq<char>, esc: bool, parts: Seq<PV>) -> Option<Seq<PV>>
+    decreases rest.len()
+{
+    if rest.len() == 0 {
+        Some(et_finish(parts, buf))
+    } else {
+        let c = rest[0];
+        let r1 = rest.drop_first();
+        if esc {
+            et_parts(r1, buf.push(c), false, parts)
+        } else if c == '@' {
+            if !ce_ok(r1) { None } else { et_parts(r1.skip(ce_take(r1)), Seq::empty(), false, parts.push(PV::S(buf)).push(PV::X(r1))) }
+        } else if c == '\\' {
+            et_parts(r1, buf, true, parts)
+        } else {
+            et_parts(r1, buf.push(c), false, parts)
+        }
+    }
+}
+pub open spec fn et_template(s: Seq<char>) -> Option<Seq<PV>> { et_parts(s, Seq::empty(), false, Seq::empty()) }
+proof fn lemma_pvs_push(s: Seq<TemplatePart>, p: TemplatePart)
+    ensures pvs(s.push(p)) == pvs(s).push(pv(p))
+{
+    assert(pvs(s.push(p)) =~= pvs(s).push(pv(p)));
+}
+pub open spec fn pvs_push_all() -> bool {
+    forall|s: Seq<TemplatePart>, p: TemplatePart| #[trigger] pvs(s.push(p)) == pvs(s).push(pv(p))
+}
+
+// `s.chars()` as an explicit iterator value (it is handed to consume_expr by `&mut`)
+pub struct VChars { pub rest: Vec<char> }
+#[verifier::external_body]
+pub fn verif_chars(s: &str) -> (r: VChars)
+    ensures r.rest@ == s@
+{ unimplemented!() }
+impl VChars {
+    #[verifier::external_body]
+    pub fn next(&mut self) -> (r: Option<char>)
+        ensures
+            old(self).rest@.len() > 0 ==> r == Some(old(self).rest@[0]) && final(self).rest@ == old(self).rest@.drop_first(),
+            old(self).rest@.len() == 0 ==> r is None && final(self).rest@ == old(self).rest@,
+    { unimplemented!() }
+}
+
+pub struct ExpressionTemplate();
+impl ExpressionTemplate {
+    pub fn new() -> Self { ExpressionTemplate() }
+    // consume_expr (R8: scans the `{...}` group, then runs the tokenizer and the expression parser on it) - ASSUMED: it is a
+    // function of the remaining text: it takes ce_take(rest) characters from the front, whether it succeeds (ce_ok) depends on
+    // that text only, and the expression it yields is the one read from that text (expr_src)
+    #[verifier::external_body]
+    fn consume_expr(&self, iter: &mut VChars) -> (r: Result<Expression, VBoxError>)
+        ensures
+            final(iter).rest@ == old(iter).rest@.skip(ce_take(old(iter).rest@)),
+            r is Ok <==> ce_ok(old(iter).rest@),
+            r matches Ok(e) ==> expr_src(e) == old(iter).rest@,
+    { unimplemented!() }
+}
+
+// the `@{expr}` template parser against the reference reading: refused exactly when an embedded expression is refused,
+// otherwise the parts are exactly et_template(input): every literal piece character for character, every expression
+// read from the text after its `@`, in order
+//@ extract src/build/format.rs :: impl TemplateParser for ExpressionTemplate :: fn parse
+//@   impl_header impl ExpressionTemplate
+//@   subst "-> TemplateResult" => "-> Result<Vec<TemplatePart>, VBoxError>"
+//@   subst "let mut parts = Vec::new();" => "let mut parts: Vec<TemplatePart> = Vec::new();"
+//@   subst "let mut iter = input.chars();" => "let mut iter = verif_chars(input);"
+//@   ret r
+//@   sig <<<
+        ensures
+            et_template(input@) is None ==> r is Err,
+            et_template(input@) matches Some(ps) ==> r matches Ok(parts) && pvs(parts@) == ps,
+//@   >>>
+//@   loop 1 <<<
+            invariant
+                pvs_push_all(),
+                et_parts(iter.rest@, buf@, should_escape, pvs(parts@)) == et_template(input@),
+            ensures iter.rest@.len() == 0
+            decreases iter.rest@.len()
+//@   >>>
+//@   before "while let" <<<
+        proof {
+            assert forall|s: Seq<TemplatePart>, p: TemplatePart| #[trigger] pvs(s.push(p)) == pvs(s).push(pv(p)) by { lemma_pvs_push(s, p); }
+            assert(pvs(parts@) =~= Seq::<PV>::empty());
+        }
+//@   >>>
+//@   mutant etpl_escape_rearm "c == '\\\\' && !should_escape" => "c == '\\\\'" expect parse
+//@   mutant etpl_at_escaped "c == '@' && !should_escape" => "c == '@'" expect parse
+//@   mutant etpl_trailing_piece "if !buf.is_empty() || parts.is_empty() {" => "if !buf.is_empty() {" expect parse
+//@   mutant etpl_drop_char "buf.push(c);" => "" expect parse
+//@   mutant etpl_piece_lost "parts.push(TemplatePart::Str(buf)); buf = Vec::new();" => "buf = Vec::new();" expect parse
 //@ end
 
 } // verus!
